@@ -10,7 +10,7 @@ write and the version bump happen under one lock region in that order.
 """
 import re
 
-from ..cfg import F, op_base, place_fields
+from ..cfg import F, op_base, op_local, place_fields
 from ..gates import (call_result_edges, guarded, unguarded_path, param_flag_edges, enum_variant_edges,
                      compare_seeds, test_edges)
 from ..prov import origins, operand_origins
@@ -249,6 +249,22 @@ def run(ctx):
                         rejected.add(v)
                 if any(p == 'wild' for p in arm['pats']) and not errs:
                     r4.bad('component-table|wildcard', 'component match has a permissive wildcard arm', loc='%s:%d' % (nz['file'], arm['line']))
+            # the value returned is exactly the validated components joined by "/": nothing rewrites the string after
+            # the per-component checks (a later replace / case fold / trim could re-introduce separators or dots)
+            okv = []
+            for b in fn.g:
+                for st_ in fn.bbs[b]['s']:
+                    if st_[0] == 'A' and st_[1] == [0, []] and st_[2][0] == 'agg' and st_[2][1].endswith('Result::Ok') and st_[2][2]:
+                        oo = operand_origins(fn, st_[2][2][0])
+                        calls = sorted({o[2] for o in oo if o[0] == 'call'})
+                        okv.append((b, calls))
+            r4.saw()
+            bad_ret = [(b, c) for b, c in okv if not (all(re.search(r'::join$|String::new$', x) for x in c) and (c or True))]
+            if okv and not bad_ret:
+                r4.ok('output-is-validated-join', detail='%d Ok returns' % len(okv))
+            else:
+                r4.bad('output-is-validated-join', 'the normaliser returns a string that was transformed after the per-component validation (%s): characters that were inside one validated component can become separators, `..` or hidden segments' % (
+                    ', '.join(x.split('::')[-1] for x in (bad_ret[0][1] if bad_ret else [])) or 'no Ok return found'), loc=fn.loc(bad_ret[0][0]) if bad_ret else fn.loc(0))
             need = {'ParentDir', 'RootDir', 'Prefix'}
             if need <= rejected:
                 r4.ok('component-table', detail=sorted(rejected))
@@ -302,6 +318,7 @@ def run(ctx):
 
     # ------------------------------------------------------------------ R5 optimistic concurrency
     r5 = ctx.rule('C19.R5', 'apply_source: version check, write and version bump under one lock region, write only on version match', floor=4)
+    rule_prefix_boundary(ctx, r5)
     ap = ctx.anchor(r5, W + 'apply_source')
     if ap is not None:
         fn = ap
@@ -374,3 +391,34 @@ def run(ctx):
                     r5.ok('content-sync')
                 else:
                     r5.bad('content-sync', 'a successful write can return without updating the cached document content', loc=fn.loc(wb))
+
+
+def rule_prefix_boundary(ctx, r5):
+    """Deleting / renaming a directory touches the tracked documents *below* it: a string-prefix test on workspace keys
+    must use a separator-terminated prefix (or a component-wise Path test), otherwise `lib` also matches `lib2/x.st`
+    and `library.st`, whose version tracking is then dropped (the next stale writer is accepted)."""
+    fx = ctx.fx
+    from ..dep import deps
+    n = 0
+    for k in sorted(fx.fns):
+        if not re.search(r'web::ide::WebIdeState::(delete_entry|rename_entry)(::\{closure#\d+\})*$', k):
+            continue
+        fn = F(fx.fns[k])
+        for b, nm, t in fn.calls(lambda x: re.search(r'core::str::<impl str>::starts_with$', x) is not None):
+            pat = t['a'][1]
+            if pat[0] == 'k':
+                continue            # literal pattern (e.g. a single character)
+            pl = op_local(pat)
+            if pl is not None and fn.local_ty(pl) in ('char',):
+                continue
+            n += 1
+            r5.saw()
+            d = deps(fn, pat)
+            sep = any('/' in c for c in d.consts)
+            key = 'dir-prefix-boundary|%s' % k.split('WebIdeState::')[1]
+            if sep:
+                r5.ok(key, loc=fn.loc(b))
+            else:
+                r5.bad(key, 'a string-prefix test on workspace paths uses the bare directory name as prefix (no trailing "/"): the directory `lib` also matches `lib2/main.st` and `library.st`, whose tracked version is dropped although the files stay, so a stale writer is accepted afterwards', loc=fn.loc(b))
+    if n == 0:
+        r5.note('no string-prefix tests in delete_entry / rename_entry (component-wise or exact matching)')
